@@ -63,7 +63,10 @@ def run(ctx):
     ctx.expect(len(reads) >= 2 and all(o == 'nu' for o in orders), 'ALG-18', 'defining SED and model SEDs read in the same (frequency) order', loc(fi), 'orders %s' % orders,
                'SEDs are read with orders %s: index j would denote different wavelengths' % orders, 'read-order')
     wdef = defs.get('wavelengths')
-    ctx.expect(wdef is not None and up(wdef[0]) == 'first_sed.wav', 'ALG-18', 'wavelengths come from the first SED', loc(fi), 'wavelengths = first_sed.wav', 'wavelengths = %s' % (up(wdef[0]) if wdef else None), 'wl-source')
+    firsts = [n_ for n_, (v_, st_) in defs.items() if isinstance(v_, ast.Call) and (chain(v_.func) or '').endswith('SED.read')]
+    if wdef is None or not firsts:
+        raise AnalysisError('monochromatic: definition of the wavelength array / first SED not found')
+    ctx.expect(up(wdef[0]) in ['%s.wav' % f_ for f_ in firsts], 'ALG-18', 'wavelengths come from the first SED', loc(fi), 'wavelengths = %s' % up(wdef[0]), 'wavelengths = %s' % up(wdef[0]), 'wl-source')
 
     # ---- CFG-9 tiling
     outer = [st for st in fi.node.body if isinstance(st, ast.For) and isinstance(st.iter, ast.Call) and chain(st.iter.func) == 'range' and len(st.iter.args) == 3]
